@@ -71,8 +71,11 @@ def _gen_shift(rng):
     return {'kind': 'shift', 'tilts': tilts, 'perm': perm, 'du': du, 'os': os_, 'wl': float(WL + rng.uniform(-5e-8, 5e-8))}
 
 def _mask_ok(mk):
-    pts = np.argwhere(mk)
-    return len(pts) >= 3 and len(set(pts[:, 0])) >= 2 and len(set(pts[:, 1])) >= 2
+    """the segment has three non-collinear pixels, i.e. the least-squares piston/tip/tilt is unique"""
+    pts = np.argwhere(np.asarray(mk) > 0)
+    if len(pts) < 3: return False
+    A = np.column_stack([np.ones(len(pts)), pts[:, 0], pts[:, 1]]).astype(float)
+    return int(np.linalg.matrix_rank(A)) == 3
 
 def _gen_fit(rng):
     m, n = int(rng.integers(2, 8)), int(rng.integers(2, 8))
